@@ -7,18 +7,18 @@
    result of [blob_open_scan]:
      n < 20                                          -> RFail EBincode
      n = boundary j                                  -> ROk (first j headers)
-     boundary j < n < boundary j + 57 + K            -> RFail EBincode          (cut inside a header)
-     boundary j + 57 + K <= n < boundary (j+1)       -> ROk (first j+1 headers) if validation is off
-                                                        or the data of record j+1 is empty (a zero-length
-                                                        read never fails); RFail EBincode otherwise
-   [scan_complete], [scan_prefix_validate], [scan_prefix_novalidate], [scan_prefix_disposition] follow.
+     boundary j < n < boundary (j+1)                 -> RFail EBincode   (cut anywhere inside a record:
+                                                        header, metadata or data)
+   [scan_complete], [scan_prefix_cases], [scan_prefix_disposition], [scan_prefix_served_iff_boundary] follow.
+
+   The scan checks that a record whose header was accepted ends inside the file (commit 865f94b of the
+   code).  Before it a record whose header was complete but whose body was cut was ACCEPTED whenever its
+   data was not read back (validation off, or empty data): finding F6.
 
    Differences from the first formulation of the statements:
    - wf_recs additionally requires the whole file to be shorter than 2^64 bytes (otherwise a blob_offset
      does not fit its field and the decoded header differs from the written one).
    - scan_complete needs no [rs <> []].
-   - scan_prefix_validate has a middle disjunct: a record with EMPTY data whose header is complete but
-     whose meta is cut is accepted even with data validation on.
    - the error disjuncts also state that n is not a boundary; the error is always EBincode. *)
 Require Import Pearl.Base.Prelude Pearl.Base.LE Pearl.Base.LEProofs Pearl.Base.Crc Pearl.Base.CrcProofs
                Pearl.Generated.Consts Pearl.Format.Record Pearl.Format.RecordProofs Pearl.Blob.Scan.
@@ -220,33 +220,25 @@ Qed.
 (* the scan loop on a truncated file                                                                *)
 (* ------------------------------------------------------------------------------------------------ *)
 
-(* a record whose header is complete but whose body is cut is accepted when data validation is off,
-   or when its data is empty (a zero-length read never fails) *)
-Definition torn_ok (v : bool) (x : rec) : bool := negb v || (length (rdata x) =? 0)%nat.
-
-(* the exact outcome of the loop started at the end of [pre] with [rs] still to come, on a file cut at [n] *)
-Definition scan_spec (K : N) (v : bool) (pre : nat) (rs : list rec) (acc : list header) (n : nat)
+(* the exact outcome of the loop started at the end of [pre] with [rs] still to come, on a file cut at [n]:
+   the headers of the complete records when the cut is at a record boundary, EBincode when it is strictly
+   inside a record *)
+Definition scan_spec (pre : nat) (rs : list rec) (acc : list header) (n : nat)
            (r : res (list header)) : Prop :=
   (exists j, (j <= length rs)%nat /\ n = (pre + recs_len (firstn j rs))%nat /\
              r = ROk (acc ++ recs_hdrs pre (firstn j rs)))
-  \/ (exists j x, nth_error rs j = Some x /\
-        (pre + recs_len (firstn j rs) + 57 + N.to_nat K <= n)%nat /\ (n < pre + recs_len (firstn (S j) rs))%nat /\
-        r = if torn_ok v x then ROk (acc ++ recs_hdrs pre (firstn (S j) rs)) else RFail EBincode)
   \/ (exists j, (j < length rs)%nat /\
-        (pre + recs_len (firstn j rs) < n)%nat /\ (n < pre + recs_len (firstn j rs) + 57 + N.to_nat K)%nat /\
+        (pre + recs_len (firstn j rs) < n)%nat /\ (n < pre + recs_len (firstn (S j) rs))%nat /\
         r = RFail EBincode).
 
-Lemma scan_spec_cons K v pre x rs acc n r :
-  scan_spec K v (pre + rec_len x) rs (acc ++ [hdr_of (N.of_nat pre) x]) n r ->
-  scan_spec K v pre (x :: rs) acc n r.
+Lemma scan_spec_cons pre x rs acc n r :
+  scan_spec (pre + rec_len x) rs (acc ++ [hdr_of (N.of_nat pre) x]) n r ->
+  scan_spec pre (x :: rs) acc n r.
 Proof.
-  intros [(j & Hj & Hn & Hr) | [(j & y & Hy & Hn1 & Hn2 & Hr) | (j & Hj & Hn1 & Hn2 & Hr)]].
+  intros [(j & Hj & Hn & Hr) | (j & Hj & Hn1 & Hn2 & Hr)].
   - left. exists (S j). cbn [length firstn recs_len recs_hdrs]. split; [lia|]. split; [lia|].
     rewrite Hr, <- app_assoc. reflexivity.
-  - right; left. exists (S j), y. cbn [nth_error]. split; [exact Hy|].
-    cbn [firstn recs_len recs_hdrs] in *. split; [lia|]. split; [lia|].
-    rewrite Hr, <- app_assoc. reflexivity.
-  - right; right. exists (S j). cbn [length firstn recs_len]. split; [lia|]. split; [lia|]. split; [lia|exact Hr].
+  - right. exists (S j). cbn [length firstn recs_len] in *. split; [lia|]. split; [lia|]. split; [lia|exact Hr].
 Qed.
 
 Lemma scan_loop_stop fuel b K v cur acc :
@@ -260,7 +252,7 @@ Lemma scan_loop_spec K v (HK : K < 2^64) : forall rs pre acc fuel n,
   Forall (wf_rec K) rs -> N.of_nat (length pre + recs_len rs) < 2^64 ->
   (length pre <= n)%nat -> (n <= length pre + recs_len rs)%nat ->
   (0 < fuel)%nat -> (n < fuel + length pre)%nat ->
-  scan_spec K v (length pre) rs acc n
+  scan_spec (length pre) rs acc n
     (scan_loop fuel (firstn n (pre ++ recs_bytes (length pre) rs)) K v (N.of_nat (length pre)) acc).
 Proof.
   induction rs as [|x rs IH]; intros pre acc fuel n Hwf Hsz Hlo Hhi Hf Hfuel.
@@ -291,7 +283,7 @@ Proof.
     destruct fuel as [|f]; [lia|]. cbn [scan_loop]. rewrite Hlb.
     destruct (N.ltb_spec (N.of_nat (length pre)) (N.of_nat n)) as [_|C]; [|lia].
     destruct (Nat.lt_ge_cases n (length pre + 57 + N.to_nat K)) as [Hc|Hc].
-    { rewrite slice_firstn_lt by lia. right; right. exists 0%nat.
+    { rewrite slice_firstn_lt by lia. right. exists 0%nat.
       cbn [firstn recs_len length]. split; [lia|]. split; [lia|]. split; [lia|reflexivity]. }
     rewrite slice_firstn_ge by lia.
     assert (S1 : slice B (N.of_nat (length pre)) (57 + K) = Some (encode_header h')).
@@ -303,17 +295,12 @@ Proof.
                    = N.of_nat (length pre')) by lia.
     rewrite Hcur.
     destruct (Nat.lt_ge_cases n (length pre + rec_len x)) as [Ht|Ht].
-    + (* torn record *)
-      right; left. exists 0%nat, x. cbn [nth_error firstn recs_len recs_hdrs]. fold h'.
-      split; [reflexivity|]. split; [lia|]. split; [lia|].
-      assert (Enext : scan_loop f (firstn n B) K v (N.of_nat (length pre')) (acc ++ [h']) = ROk (acc ++ [h'])).
-      { apply scan_loop_stop; [lia|]. rewrite Hlb. lia. }
-      unfold torn_ok. destruct v; cbn [negb orb].
-      * destruct (rdata x) as [|d0 dr] eqn:Ed.
-        -- cbn [length Nat.eqb]. change (N.of_nat 0) with 0. rewrite slice_zero, N.eqb_refl. exact Enext.
-        -- cbn [Nat.eqb]. rewrite slice_firstn_lt; [reflexivity | cbn [length]; lia | cbn [length] in *; lia].
-      * exact Enext.
+    + (* torn record: it does not end inside the file *)
+      destruct (N.ltb_spec (N.of_nat n) (N.of_nat (length pre'))) as [_|C]; [|lia].
+      right. exists 0%nat. cbn [firstn recs_len length].
+      split; [lia|]. split; [lia|]. split; [lia|reflexivity].
     + (* complete record *)
+      destruct (N.ltb_spec (N.of_nat n) (N.of_nat (length pre'))) as [C|_]; [lia|].
       apply scan_spec_cons. fold h'. rewrite <- Hlp.
       assert (Estep : (if v
                        then match slice (firstn n B) (N.of_nat (length pre) + (57 + K) + N.of_nat (length (rmeta x)))
@@ -420,16 +407,14 @@ Proof.
   rewrite le64_val by (rewrite Hk; exact HK). rewrite Hk, N.eqb_refl. reflexivity.
 Qed.
 
-(* MAIN: the exact outcome of opening the first n bytes of a well-formed blob, for every n *)
+(* MAIN: the exact outcome of opening the first n bytes of a well-formed blob, for every n and both
+   validation modes: a cut strictly inside a record (header, metadata or data alike) is EBincode *)
 Theorem scan_prefix_exact : forall K rs n v, wf_recs K rs -> (n <= length (blob_bytes rs))%nat ->
   let r := blob_open_scan (firstn n (blob_bytes rs)) K v in
   ((n < 20)%nat /\ r = RFail EBincode)
   \/ (exists j, (j <= length rs)%nat /\ n = boundary rs j /\ r = ROk (firstn j (blob_hdrs rs)))
-  \/ (exists j x, nth_error rs j = Some x /\
-        (boundary rs j + 57 + N.to_nat K <= n)%nat /\ (n < boundary rs (S j))%nat /\
-        r = if torn_ok v x then ROk (firstn (S j) (blob_hdrs rs)) else RFail EBincode)
   \/ (exists j, (j < length rs)%nat /\
-        (boundary rs j < n)%nat /\ (n < boundary rs j + 57 + N.to_nat K)%nat /\ r = RFail EBincode).
+        (boundary rs j < n)%nat /\ (n < boundary rs (S j))%nat /\ r = RFail EBincode).
 Proof.
   intros K rs n v (HK & Hwf & Hsz) Hn r. subst r.
   rewrite blob_bytes_length in Hsz, Hn. rewrite blob_hdrs_eq.
@@ -452,7 +437,8 @@ Proof.
   destruct rs as [|x rs]; [cbn [recs_len] in Hn; lia|].
   inversion Hwf as [|x' rs' Hx Hrs]; subst x' rs'.
   destruct (Nat.lt_ge_cases n 36) as [H36|H36].
-  { right; right. exists 0%nat. rewrite Hb. cbn [firstn recs_len length]. split; [lia|]. split; [lia|]. split; [lia|].
+  { right. exists 0%nat. rewrite !Hb. cbn [firstn recs_len length]. unfold rec_len.
+    split; [lia|]. split; [lia|]. split; [lia|].
     unfold scan_start. rewrite Hlb. destruct (Nat.ltb_spec n 36) as [_|C]; [reflexivity|lia]. }
   assert (Hss : scan_start (firstn n B) K = None).
   { subst B. cbn [recs_bytes]. apply scan_start_ok; [exact HK|exact Hx|exact H36|].
@@ -461,12 +447,10 @@ Proof.
   pose proof (scan_loop_spec K v HK (x :: rs) blob_header_bytes [] (S n) n Hwf) as Hs.
   rewrite blob_header_length in Hs. change (N.of_nat 20) with 20 in Hs. fold B in Hs.
   specialize (Hs ltac:(lia) ltac:(lia) ltac:(lia) ltac:(lia) ltac:(lia)).
-  destruct Hs as [(j & Hj & Hnj & Hr) | [(j & y & Hy & Hn1 & Hn2 & Hr) | (j & Hj & Hn1 & Hn2 & Hr)]].
+  destruct Hs as [(j & Hj & Hnj & Hr) | (j & Hj & Hn1 & Hn2 & Hr)].
   - left. exists j. rewrite Hb. split; [exact Hj|]. split; [exact Hnj|].
     rewrite Hr, recs_hdrs_firstn. reflexivity.
-  - right; left. exists j, y. rewrite !Hb. split; [exact Hy|]. split; [exact Hn1|]. split; [exact Hn2|].
-    rewrite Hr, recs_hdrs_firstn. reflexivity.
-  - right; right. exists j. rewrite !Hb. split; [exact Hj|]. split; [exact Hn1|]. split; [exact Hn2|exact Hr].
+  - right. exists j. rewrite !Hb. split; [exact Hj|]. split; [exact Hn1|]. split; [exact Hn2|exact Hr].
 Qed.
 
 (* ------------------------------------------------------------------------------------------------ *)
@@ -481,136 +465,105 @@ Proof.
   pose proof (scan_prefix_exact K rs (length (blob_bytes rs)) v Hwf (Nat.le_refl _)) as H.
   cbv zeta in H. rewrite firstn_all in H.
   assert (Hlast := boundary_last rs).
-  destruct H as [(C & _) | [(j & Hj & Hn & Hr) | [(j & x & Hx & Hn1 & Hn2 & _) | (j & Hj & Hn1 & Hn2 & _)]]].
+  destruct H as [(C & _) | [(j & Hj & Hn & Hr) | (j & Hj & Hn1 & Hn2 & _)]].
   - rewrite blob_bytes_length in C. lia.
   - rewrite Hr. f_equal. apply firstn_all2.
     unfold blob_hdrs. rewrite blob_of_eq. cbn [snd]. rewrite recs_hdrs_length.
     destruct (Nat.le_gt_cases (length rs) j) as [|Hlt]; [assumption|exfalso].
     destruct (nth_error rs j) as [x|] eqn:Ex; [|apply nth_error_None in Ex; lia].
     pose proof (boundary_S K rs j x Hrs Ex). pose proof (boundary_mono rs (S j) (length rs) Hlt). lia.
-  - assert (Hlt : (j < length rs)%nat) by (apply nth_error_Some; congruence).
-    pose proof (boundary_mono rs (S j) (length rs) Hlt). lia.
-  - destruct (nth_error rs j) as [x|] eqn:Ex; [|apply nth_error_None in Ex; lia].
-    pose proof (boundary_S K rs j x Hrs Ex). pose proof (boundary_mono rs (S j) (length rs) Hj). lia.
+  - pose proof (boundary_mono rs (S j) (length rs) Hj). lia.
 Qed.
 
 Corollary scan_empty : forall K validate, blob_open_scan (blob_bytes []) K validate = ROk [].
 Proof. intros K v. reflexivity. Qed.
 
-(* b. every truncation length, data validation ON.
-   CHANGE w.r.t. the first formulation: a zero-length read never fails, so a record with EMPTY data whose
-   header is complete but whose meta is cut off is accepted (middle disjunct).  Otherwise the result is a
-   prefix of the headers exactly at record boundaries and a quarantining error everywhere else. *)
+(* b. every truncation length, both validation modes, with the side information that the cut is not a
+   boundary in the error case: a prefix of the headers exactly at record boundaries and a quarantining
+   error everywhere else. *)
+Theorem scan_prefix_cases : forall K rs n v, wf_recs K rs -> (n <= length (blob_bytes rs))%nat ->
+  let r := blob_open_scan (firstn n (blob_bytes rs)) K v in
+  (exists j, (j <= length rs)%nat /\ n = boundary rs j /\ r = ROk (firstn j (blob_hdrs rs)))
+  \/ ((forall j, n <> boundary rs j) /\ r = RFail EBincode).
+Proof.
+  intros K rs n v Hwf Hn r. pose proof (scan_prefix_exact K rs n v Hwf Hn) as H. fold r in H.
+  destruct H as [(C & Hr) | [(j & Hj & Hnj & Hr) | (j & Hj & Hn1 & Hn2 & Hr)]].
+  - right. split; [|exact Hr]. intros j E. rewrite boundary_eq in E. lia.
+  - left. exists j. auto.
+  - right. split; [|exact Hr]. apply (between_not_boundary rs j); assumption.
+Qed.
+
 Theorem scan_prefix_validate : forall K rs n, wf_recs K rs -> (n <= length (blob_bytes rs))%nat ->
   let r := blob_open_scan (firstn n (blob_bytes rs)) K true in
   (exists j, (j <= length rs)%nat /\ n = boundary rs j /\ r = ROk (firstn j (blob_hdrs rs)))
-  \/ (exists j key ts meta, nth_error rs j = Some (key, ts, meta, []) /\
-        (boundary rs j + 57 + N.to_nat K <= n)%nat /\ (n < boundary rs (S j))%nat /\
-        (forall j', n <> boundary rs j') /\ r = ROk (firstn (S j) (blob_hdrs rs)))
-  \/ ((forall j, (j <= length rs)%nat -> n <> boundary rs j) /\ exists e, r = RFail e /\ e <> EBlobVersion).
-Proof.
-  intros K rs n Hwf Hn r. pose proof (scan_prefix_exact K rs n true Hwf Hn) as H. fold r in H.
-  destruct H as [(C & Hr) | [(j & Hj & Hnj & Hr) | [(j & x & Hx & Hn1 & Hn2 & Hr) | (j & Hj & Hn1 & Hn2 & Hr)]]].
-  - right; right. split.
-    + intros j _ E. rewrite boundary_eq in E. lia.
-    + exists EBincode. split; [exact Hr|discriminate].
-  - left. exists j. auto.
-  - assert (Hnb : forall j', n <> boundary rs j') by (apply (between_not_boundary rs j); lia).
-    unfold torn_ok in Hr. cbn [negb orb] in Hr. destruct x as [[[key ts] meta] data]. unfold rdata in Hr. cbn [snd] in Hr.
-    destruct data as [|d0 dr]; cbn [length Nat.eqb] in Hr.
-    + right; left. exists j, key, ts, meta. auto.
-    + right; right. split; [intros j' _; apply Hnb|]. exists EBincode. split; [exact Hr|discriminate].
-  - right; right. split.
-    + intros j' _. destruct (nth_error rs j) as [x|] eqn:Ex; [|apply nth_error_None in Ex; lia].
-      pose proof (boundary_S K rs j x (proj1 (proj2 Hwf)) Ex).
-      apply (between_not_boundary rs j); lia.
-    + exists EBincode. split; [exact Hr|discriminate].
-Qed.
+  \/ ((forall j, n <> boundary rs j) /\ r = RFail EBincode).
+Proof. intros K rs n. exact (scan_prefix_cases K rs n true). Qed.
 
-(* c. data validation OFF: additionally, ANY record whose header is complete is indexed although its
-   meta/data is cut (finding F6). *)
+(* c. data validation OFF: the same (before commit 865f94b of the code ANY record whose header was complete
+   was indexed although its meta/data was cut: finding F6). *)
 Theorem scan_prefix_novalidate : forall K rs n, wf_recs K rs -> (n <= length (blob_bytes rs))%nat ->
   let r := blob_open_scan (firstn n (blob_bytes rs)) K false in
   (exists j, (j <= length rs)%nat /\ n = boundary rs j /\ r = ROk (firstn j (blob_hdrs rs)))
-  \/ (exists j, (j < length rs)%nat /\ (boundary rs j + 57 + N.to_nat K <= n)%nat /\ (n < boundary rs (S j))%nat /\
-        (forall j', n <> boundary rs j') /\ r = ROk (firstn (S j) (blob_hdrs rs)))
-  \/ ((forall j, (j <= length rs)%nat -> n <> boundary rs j) /\ exists e, r = RFail e /\ e <> EBlobVersion).
-Proof.
-  intros K rs n Hwf Hn r. pose proof (scan_prefix_exact K rs n false Hwf Hn) as H. fold r in H.
-  destruct H as [(C & Hr) | [(j & Hj & Hnj & Hr) | [(j & x & Hx & Hn1 & Hn2 & Hr) | (j & Hj & Hn1 & Hn2 & Hr)]]].
-  - right; right. split.
-    + intros j _ E. rewrite boundary_eq in E. lia.
-    + exists EBincode. split; [exact Hr|discriminate].
-  - left. exists j. auto.
-  - right; left. exists j. split; [apply nth_error_Some; congruence|].
-    split; [exact Hn1|]. split; [exact Hn2|]. split; [apply (between_not_boundary rs j); lia|exact Hr].
-  - right; right. split.
-    + intros j' _. destruct (nth_error rs j) as [x|] eqn:Ex; [|apply nth_error_None in Ex; lia].
-      pose proof (boundary_S K rs j x (proj1 (proj2 Hwf)) Ex).
-      apply (between_not_boundary rs j); lia.
-    + exists EBincode. split; [exact Hr|discriminate].
-Qed.
+  \/ ((forall j, n <> boundary rs j) /\ r = RFail EBincode).
+Proof. intros K rs n. exact (scan_prefix_cases K rs n false). Qed.
 
 (* consequences for Storage::read_blobs: a truncated blob never makes initialisation fail; it is either
    served or quarantined *)
 Corollary scan_prefix_disposition : forall K rs n v, wf_recs K rs -> (n <= length (blob_bytes rs))%nat ->
   dispose (blob_open_scan (firstn n (blob_bytes rs)) K v) <> DInitFails.
 Proof.
-  intros K rs n v Hwf Hn. pose proof (scan_prefix_exact K rs n v Hwf Hn) as H. cbv zeta in H.
-  destruct H as [(_ & Hr) | [(j & _ & _ & Hr) | [(j & x & _ & _ & _ & Hr) | (j & _ & _ & _ & Hr)]]];
-    rewrite Hr; try discriminate. destruct (torn_ok v x); discriminate.
+  intros K rs n v Hwf Hn. pose proof (scan_prefix_cases K rs n v Hwf Hn) as H. cbv zeta in H.
+  destruct H as [(j & _ & _ & Hr) | (_ & Hr)]; rewrite Hr; discriminate.
 Qed.
 
-(* with validation ON and no empty-data record, "served" happens exactly at record boundaries *)
-Corollary scan_prefix_served_iff_boundary : forall K rs n, wf_recs K rs -> (n <= length (blob_bytes rs))%nat ->
-  Forall (fun x => rdata x <> []) rs ->
-  (dispose (blob_open_scan (firstn n (blob_bytes rs)) K true) = DServed <->
+(* in both validation modes "served" happens exactly at record boundaries *)
+Corollary scan_prefix_served_iff_boundary : forall K rs n v, wf_recs K rs -> (n <= length (blob_bytes rs))%nat ->
+  (dispose (blob_open_scan (firstn n (blob_bytes rs)) K v) = DServed <->
    exists j, (j <= length rs)%nat /\ n = boundary rs j).
 Proof.
-  intros K rs n Hwf Hn Hne. pose proof (scan_prefix_validate K rs n Hwf Hn) as H. cbv zeta in H.
-  destruct H as [(j & Hj & Hnj & Hr) | [(j & key & ts & meta & Hx & _) | (Hnb & e & Hr & He)]].
+  intros K rs n v Hwf Hn. pose proof (scan_prefix_cases K rs n v Hwf Hn) as H. cbv zeta in H.
+  destruct H as [(j & Hj & Hnj & Hr) | (Hnb & Hr)].
   - rewrite Hr. split; [intros _; exists j; auto | reflexivity].
-  - exfalso. apply nth_error_In in Hx. rewrite Forall_forall in Hne. apply (Hne _ Hx). reflexivity.
-  - rewrite Hr. split.
-    + destruct e; discriminate.
-    + intros (j & Hj & E). exfalso. exact (Hnb j Hj E).
+  - rewrite Hr. split; [discriminate|].
+    intros (j & _ & E). exfalso. exact (Hnb j E).
 Qed.
 
 (* ------------------------------------------------------------------------------------------------ *)
-(* witnesses                                                                                        *)
+(* computed examples                                                                                *)
 (* ------------------------------------------------------------------------------------------------ *)
 
 (* F6: two records, K = 4; the file is cut inside the data of record 2 (2 of its 4 data bytes are missing).
-   Without data validation the scan indexes BOTH records; reading the second one then fails. *)
+   The scan rejects the file (quarantine) with and without data validation.  Before the repair the scan
+   without data validation indexed BOTH records, and reading the second one then failed. *)
 Definition f6_recs : list rec := [([1;2;3;4], 1, [], [10;20;30]); ([5;6;7;8], 2, [9], [40;50;60;70])].
 Definition f6_cut : bytes := firstn (length (blob_bytes f6_recs) - 2) (blob_bytes f6_recs).
 
-Example f6_torn_record_indexed : blob_open_scan f6_cut 4 false = ROk (blob_hdrs f6_recs).
-Proof. vm_compute. reflexivity. Qed.
+Example f6_torn_record_rejected :
+  blob_open_scan f6_cut 4 false = RFail EBincode /\ blob_open_scan f6_cut 4 true = RFail EBincode.
+Proof. vm_compute. split; reflexivity. Qed.
 
-Example f6_with_validation_rejected : blob_open_scan f6_cut 4 true = RFail EBincode.
-Proof. vm_compute. reflexivity. Qed.
-
+(* the record that used to be indexed could not be read *)
 Example f6_torn_record_unreadable :
   entry_load f6_cut (nth 1 (blob_hdrs f6_recs) (new_header [] 0 [] [])) = RFail EBincode.
 Proof. vm_compute. reflexivity. Qed.
 
 (* zero-length data: one record, K = 4, 8-byte meta and EMPTY data (e.g. a deletion marker); the file is
-   cut inside the meta.  Even WITH data validation the scan indexes the record. *)
+   cut inside the meta.  The scan rejects the file in both modes.  Before the repair the record was indexed
+   even WITH data validation (a zero-length read never fails). *)
 Definition z_recs : list rec := [([1;2;3;4], 1, [1;2;3;4;5;6;7;8], [])].
 Definition z_cut : bytes := firstn (length (blob_bytes z_recs) - 5) (blob_bytes z_recs).
 
-Example empty_data_torn_meta_indexed_with_validation :
+Example empty_data_torn_meta_rejected :
   (length z_cut < length (blob_bytes z_recs))%nat /\
-  blob_open_scan z_cut 4 true = ROk (blob_hdrs z_recs) /\
-  entry_load z_cut (nth 0 (blob_hdrs z_recs) (new_header [] 0 [] [])) = RFail EBincode.
+  blob_open_scan z_cut 4 true = RFail EBincode /\ blob_open_scan z_cut 4 false = RFail EBincode.
 Proof. vm_compute. repeat split; try reflexivity. lia. Qed.
 
 Print Assumptions scan_prefix_exact.
 Print Assumptions scan_complete.
+Print Assumptions scan_prefix_cases.
 Print Assumptions scan_prefix_validate.
 Print Assumptions scan_prefix_novalidate.
 Print Assumptions scan_prefix_disposition.
 Print Assumptions scan_prefix_served_iff_boundary.
-Print Assumptions f6_torn_record_indexed.
-Print Assumptions empty_data_torn_meta_indexed_with_validation.
+Print Assumptions f6_torn_record_rejected.
+Print Assumptions empty_data_torn_meta_rejected.
